@@ -58,6 +58,12 @@ def plan(tier, seed):
     d = 1 if tier == "quick" else 2
     for spec in hist:
         units.append(("hist", "K+U2c", [spec], d if len(U.resolve(spec).sd[0]) <= 3 else 1))
+    # name sanitization (part of constructing a diagram from a network with awkward names): every ordered triple of the pool
+    from .c17 import NASTY
+    import itertools
+    triples = list(itertools.permutations(NASTY, 3))
+    for ch in U.chunks(triples, 120):
+        units.append(("sanitize", "names", ch, None))
     units.sort(key=lambda u: u[0] != "hist")
     return {
         "units": units, "universes": {**{n: len(s) for n, s, _ in us}, f"history states depth {d} (K n<=4, U2c)": len(hist)},
@@ -174,6 +180,22 @@ def run_unit(unit):
     kind, uname, specs, arg = unit
     MON.install()
     res = new_result()
+    if kind == "sanitize":
+        from .c17 import build_nasty
+        from biobalm.petri_net_translation import sanitize_network_names
+        base = U.kernel()["doc_example"]
+        for names in specs:
+            bn = build_nasty(base, names)
+            res["evals"] += 1
+            case = {"net": ["k", "doc_example"], "names": list(names), "ops": ["sanitize"]}
+            for v in monitored(base, lambda: sanitize_network_names(bn), res, case):
+                res["violations"].append(v)
+        res["transitions"] = res["evals"]
+        res["states"] = res["evals"]
+        res["samples"].append({"kind": "sanitize", "names": list(specs[0])})
+        seen = set()
+        res["violations"] = [v for v in res["violations"] if not ((v["oracle"], v["site"]) in seen or seen.add((v["oracle"], v["site"])))]
+        return res
     for spec in specs:
         net = U.resolve(spec)
         if any(a & (a - 1) for a in net.attractors) or net.maa:
@@ -199,6 +221,11 @@ def replay(case):
     MON.install()
     net = U.resolve(case["net"])
     res = new_result()
+    if case.get("ops") == ["sanitize"]:
+        from .c17 import build_nasty
+        from biobalm.petri_net_translation import sanitize_network_names
+        bn = build_nasty(net, tuple(case["names"]))
+        return monitored(net, lambda: sanitize_network_names(bn), res, case)
     ops = case["ops"]
     pre = []
     last = None
